@@ -19,6 +19,7 @@ import (
 	sdktrace "go.opentelemetry.io/otel/sdk/trace"
 	"go.opentelemetry.io/otel/trace"
 
+	"verifharness/spanlist"
 	"verifharness/vf"
 )
 
@@ -83,6 +84,7 @@ type exporter struct {
 	events    []exportEv
 	inFlight  int32
 	overlaps  int32
+	mutated   []string // batches that changed while ExportSpans was still running
 	shutdowns []uint64 // tickets of exporter.Shutdown calls
 	calls     int
 	// behaviour
@@ -133,9 +135,25 @@ func (e *exporter) ExportSpans(ctx context.Context, ss []sdktrace.ReadOnlySpan) 
 		}
 	}
 	ev.err = err != nil
+	// an exporter reads its batch while it works on it (marshalling happens after the queue wait, the
+	// connection set-up, ...): what it was handed must still be there when it is about to return
+	changed := ""
+	if len(ss) != len(ev.ids) {
+		changed = fmt.Sprintf("batch length %d at entry, %d at exit", len(ev.ids), len(ss))
+	} else {
+		for i, s := range ss {
+			if s == nil || s.SpanContext().SpanID() != ev.ids[i] {
+				changed = fmt.Sprintf("position %d of %d held span %s at entry and another span before ExportSpans returned", i, len(ss), ev.ids[i])
+				break
+			}
+		}
+	}
 	ev.exit = vf.Tick()
 	e.mu.Lock()
 	e.events = append(e.events, ev)
+	if changed != "" {
+		e.mutated = append(e.mutated, changed)
+	}
 	e.mu.Unlock()
 	return err
 }
@@ -525,6 +543,11 @@ func runHistory(k *vf.Case) {
 	if n := atomic.LoadInt32(&exp.overlaps); n > 0 {
 		fail("exporter-invoked-concurrently", "", fmt.Sprintf("%d overlapping exporter calls", n))
 	}
+	exp.mu.Lock()
+	if len(exp.mutated) > 0 {
+		fail("batch-changed-during-export", "", fmt.Sprintf("%d batches changed while the exporter was working on them; first: %s", len(exp.mutated), exp.mutated[0]))
+	}
+	exp.mu.Unlock()
 	if len(expShutdowns) != 1 {
 		fail("exporter-shutdown-count", skey(""), fmt.Sprint(len(expShutdowns)))
 	}
@@ -737,6 +760,17 @@ func runCapacity(k *vf.Case) {
 	k.C.Sig(fmt.Sprintf("capacity|%d|%d", q, extra))
 }
 
+// runListEdit: the span reaches the batch span processor through the provider's processor list; the list is
+// edited while End is walking it (shared scenario, package spanlist).
+func runListEdit(k *vf.Case) {
+	desc, vs := spanlist.Run(k.R)
+	for _, v := range vs {
+		k.Violate("span-not-handed-over-exactly-once", "processor list edited during End", v, nil)
+	}
+	k.C.Count("list_edit_cases", 1)
+	k.C.Sig("list-edit|" + desc)
+}
+
 func main() {
 	vf.Main("C01", "exploration", func(c *vf.Ctx) {
 		c.Rule = "seeded concurrent histories against the real BatchSpanProcessor: producers x spans, flushers (live/short-deadline/cancelled contexts), mid-run and concurrent Shutdown callers, configurations queue{0 (blocking only),1,2,3,8,64,2048} x batch{1,2,3,7,64,512} x timeout{1ms,5ms,1h} x exportTimeout{0,1ms,1s} x blocking, exporters instant/slow/erroring/ctx-blocking/gate-blocked, GOMAXPROCS{2,4,16}; one history at a time per child process so the SDK's total_dropped debug record is attributable. distinct = distinct (configuration, drops seen, flush||export overlap, shutdown||End overlap) signatures"
@@ -747,6 +781,8 @@ func main() {
 		}
 		n := c.N(4000, 40000)
 		c.Isolated("histories", n, vf.IsoOpts{Batch: 50, Par: 16, Timeout: 10 * time.Minute}, runHistory)
+		c.Isolated("list-edit", c.N(300, 4000), vf.IsoOpts{Batch: 50, Par: 16, Timeout: 10 * time.Minute}, runListEdit)
+		c.Floor("list_edit_cases", 150)
 		c.Isolated("capacity", c.N(240, 3000), vf.IsoOpts{Batch: 40, Par: 16, Timeout: 10 * time.Minute}, runCapacity)
 		c.Floor("capacity_cases", 100)
 		c.Floor("histories", int64(n*9/10))
